@@ -1,8 +1,6 @@
 package c18
 
 import (
-	"os"
-	"runtime/pprof"
 	"time"
 
 	"verif/harness/mc"
@@ -37,11 +35,6 @@ func oracleVariant() Variant {
 func withStats(p mc.Part, v Variant, alphabet string) mc.Part {
 	run := p.Run
 	p.Run = func(tier string, known []mc.KnownFinding, dl time.Time) mc.PartReport {
-		if pf := os.Getenv("VERIF_C18_PROF"); pf != "" {
-			f, _ := os.Create(pf + "." + v.Name)
-			pprof.StartCPUProfile(f)
-			defer pprof.StopCPUProfile()
-		}
 		rep := run(tier, known, dl)
 		if rep.Bounds == nil {
 			rep.Bounds = map[string]interface{}{}
@@ -74,9 +67,9 @@ func Parts() []mc.Part {
 	q, o := queueVariant(), oracleVariant()
 	return []mc.Part{
 		KernelPart(),
-		withStats(mc.ExplorePart("queue", New(q), 6, 7, true, rule), q,
+		withStats(mc.ExplorePart("queue", New(q), 8, 9, true, rule), q,
 			"request(consumer in {A,B}, interval in {1,2,3}, plain), block (5..7 s); blockers: random"),
-		withStats(mc.ExplorePart("oracle", New(o), 7, 9, true, rule), o,
+		withStats(mc.ExplorePart("oracle", New(o), 8, 10, true, rule), o,
 			"request(A,1,oracle), request(B,1,oracle), request(A,2,oracle), request(A,1,plain), respond(active seed request, {valid seed, malformed seed, error result}), block (no response within 2 blocks = timeout); blockers: service, random"),
 	}
 }
